@@ -100,7 +100,8 @@ def report(res, verbose=False, partial=False):
                               + cov['explanation'])
     ev = dict(property_id=pid, tier=res['tier'], seed=res['seed'], level=level, coverage=cov,
               assumptions=trusted, wall_s=round(res['wall'], 2), violations=len(violations) + len(bounded_viol))
-    if not partial:
+    if not partial and not os.environ.get('PYVC_REPO_SRC'):
+        # (runs against a scratch copy -- seeded changes, experiments -- never touch the evidence of /repo)
         os.makedirs(os.path.join(VERIF, 'evidence'), exist_ok=True)
         with open(os.path.join(VERIF, 'evidence', f'{pid}.json'), 'w') as f:
             json.dump(ev, f, indent=1, default=str)
